@@ -125,6 +125,19 @@ func (d *driver) coqCase(sc *fx.Scenario, f fx.Fault, obs *fx.Obs) string {
 	if obs.Panic != "" || obs.TimedOut {
 		return ""
 	}
+	if f.Ctx == "expired" || f.Ctx == "timeout-short" {
+		// done before the first operation / at an instant the harness does not control:
+		// judged by the oracle only
+		return ""
+	}
+	if (f.Class != "" && f.Class != "timeout") || f.Ctx == "timeout-own" {
+		// the model does not look at the error class nor at how the context came by its
+		// deadline: one class and one shape are given to it, the others are judged by the
+		// oracle only (they would be the same model runs again)
+		return ""
+	}
+	class := map[string]string{"": "CGeneric", "eof": "CEOF", "ueof": "CUnexpectedEOF", "timeout": "CTimeout",
+		"temporary": "CTemporary", "wrapped": "CWrapped", "operror": "CWrapped"}[f.Class]
 	fault, cancel, entry := "FNone", "None", false
 	clear := sname(sc, "clear")
 	blocked := f.Cancel == "blocked"
@@ -174,8 +187,8 @@ func (d *driver) coqCase(sc *fx.Scenario, f fx.Fault, obs *fx.Obs) string {
 	if obs.HasErr {
 		result = "CErr"
 	}
-	return fmt.Sprintf("mkCase %s (mkPlan (%s) %s %s %s %s) %d%%N %s %s %s %s %d%%N %s",
-		sname(sc, "cfg"), fault, cancel, hx.CoqBool(entry), hx.CoqBool(!sc.RWOnly), hx.CoqBool(!sc.HSBad), sc.InitBits(), clear, sname(sc, "tls"),
+	return fmt.Sprintf("mkCase %s (mkPlan (%s) %s %s %s %s %s %s) %d%%N %s %s %s %s %d%%N %s",
+		sname(sc, "cfg"), fault, class, cancel, hx.CoqBool(entry), hx.CoqBool(!sc.RWOnly), hx.CoqBool(f.Ctx != ""), hx.CoqBool(!sc.HSBad), sc.InitBits(), clear, sname(sc, "tls"),
 		coqList(calls), result, obs.State, coqList(trace))
 }
 
@@ -185,13 +198,15 @@ func (d *driver) fail(sc *fx.Scenario, f fx.Fault, obs *fx.Obs, clause, what str
 
 // oracle states the property on what the run showed.
 func (d *driver) oracle(sc *fx.Scenario, f fx.Fault, obs *fx.Obs, bi *baseInfo) {
-	injected := f.Kind != "" || f.Cancel != ""
+	injected := f.Kind != "" || f.Cancel != "" || f.Ctx != ""
 	if obs.Panic != "" {
 		d.fail(sc, f, obs, "panic", "session establishment panicked: "+obs.Panic)
 		return
 	}
 	if obs.TimedOut {
-		if f.Cancel == "atlimit" && obs.Cancelled {
+		if f.Ctx == "expired" || f.Ctx == "timeout-short" {
+			d.fail(sc, f, obs, "outlives-cancellation/context-deadline", "the context's own deadline had passed ("+f.Ctx+") and the call did not return on a connection with deadlines")
+		} else if f.Cancel == "atlimit" && obs.Cancelled {
 			d.fail(sc, f, obs, "outlives-cancellation/between-reads-then-silence", "the context was cancelled between two reads, the peer then stayed silent, and the call did not return on a connection with deadlines")
 		} else if f.Cancel == "atlimit" {
 			// the peer fell silent before the context was cancelled: nothing to hold against the library
@@ -218,6 +233,9 @@ func (d *driver) oracle(sc *fx.Scenario, f fx.Fault, obs *fx.Obs, bi *baseInfo) 
 		}
 		if !sc.WantOK && len(obs.CBErrs) == 0 {
 			d.fail(sc, f, obs, "nil-error-after-failed-step/protocol", "the handshake contains a step that must fail and session establishment returned a nil error")
+		}
+		if f.Ctx == "expired" {
+			d.fail(sc, f, obs, "cancel-ignored/already-expired", "the context was done before the call and session establishment returned a nil error")
 		}
 		if obs.Cancelled && (f.Cancel == "after" || f.Cancel == "atlimit") {
 			d.fail(sc, f, obs, "cancel-ignored/between-operations", "the context was cancelled between two connection operations, before negotiation completed, and session establishment returned a nil error")
@@ -280,7 +298,13 @@ func (d *driver) one(sc *fx.Scenario, f fx.Fault, bi *baseInfo) fx.Obs {
 	if f.Cancel != "" {
 		kind += "+cancel-" + f.Cancel
 	}
-	nontrivial := obs.Fired || obs.Cancelled || (f.Kind == "" && f.Cancel == "")
+	if f.Class != "" {
+		kind += "/" + f.Class
+	}
+	if f.Ctx != "" {
+		kind += "@ctx:" + f.Ctx
+	}
+	nontrivial := obs.Fired || obs.Cancelled || (f.Kind == "" && f.Cancel == "" && f.Ctx == "")
 	fj, _ := json.Marshal(f)
 	d.res.Count(sc.Name+string(fj), nontrivial, "fault:"+kind, "scenario:"+sc.Name)
 	if obs.HasErr {
@@ -331,10 +355,29 @@ func (d *driver) enumerate(sc *fx.Scenario) {
 		d.one(sc, fx.Fault{Kind: "cut", K: k}, &bi)
 		d.one(sc, fx.Fault{Kind: "transient", K: k}, &bi)
 	}
+	// ... returning an error of every class, the context staying alive: a timeout as under a
+	// deadline the caller set on the connection, a temporary network error, EOF, wrapped ones
+	for _, cl := range []string{"eof", "ueof", "timeout", "temporary", "wrapped", "operror"} {
+		for k := 0; k < nRaw; k++ {
+			d.one(sc, fx.Fault{Kind: "transient", K: k, Class: cl}, &bi)
+			if cl == "timeout" || cl == "operror" {
+				d.one(sc, fx.Fault{Kind: "cut", K: k, Class: cl}, &bi)
+			}
+		}
+	}
 	// cancellation between two operations
 	for c := 0; c < nRaw; c++ {
 		d.one(sc, fx.Fault{Cancel: "idle", CancelAt: c}, &bi)
 	}
+	// the same with contexts that carry a deadline of their own (cancelled long before it)
+	for _, sh := range []string{"timeout-parent", "timeout-own"} {
+		for c := 0; c < nRaw; c++ {
+			d.one(sc, fx.Fault{Cancel: "idle", CancelAt: c, Ctx: sh}, &bi)
+			d.one(sc, fx.Fault{Cancel: "after", CancelAt: c, Ctx: sh}, &bi)
+		}
+	}
+	// a context that is done before the call
+	d.one(sc, fx.Fault{Ctx: "expired"}, &bi)
 	// cancellation between two operations: when operation c has succeeded
 	for c := 0; c < nRaw; c++ {
 		d.one(sc, fx.Fault{Cancel: "after", CancelAt: c}, &bi)
@@ -360,10 +403,31 @@ func (d *driver) enumerate(sc *fx.Scenario) {
 		}
 		d.one(sc, fx.Fault{Kind: "silent", B: b, Cancel: "blocked"}, &bi)
 	}
-	ops := base.Trace
-	_ = ops
 	for k := 0; k < nRaw; k++ {
 		d.one(sc, fx.Fault{Kind: "wblock", K: k, Cancel: "blocked"}, &bi)
+	}
+	// blocked read / blocked write / between two reads, with contexts that carry a deadline of
+	// their own and are cancelled long before it: the call must return after the cancellation,
+	// not when the deadline comes
+	for _, sh := range []string{"timeout-parent", "timeout-own"} {
+		for b := 0; b < bi.total; b++ {
+			if b%16 != 5 && !d.thor {
+				continue
+			}
+			d.one(sc, fx.Fault{Kind: "silent", B: b, Cancel: "blocked", Ctx: sh}, &bi)
+			if b > 0 {
+				d.one(sc, fx.Fault{Kind: "silent", B: b, Cancel: "atlimit", Ctx: sh}, &bi)
+			}
+		}
+		for k := 0; k < nRaw; k++ {
+			d.one(sc, fx.Fault{Kind: "wblock", K: k, Cancel: "blocked", Ctx: sh}, &bi)
+		}
+	}
+	// a short timeout that expires by itself while the call is blocked on a silent peer
+	if sc.WantOK && bi.total > 3 {
+		for _, b := range []int{bi.total / 3, 2 * bi.total / 3} {
+			d.one(sc, fx.Fault{Kind: "silent", B: b, Ctx: "timeout-short"}, &bi)
+		}
 	}
 }
 
